@@ -91,7 +91,9 @@ def decode_lean_r(resp):
             val = ent[1]
             sig[name] = ("id",) if val[0] == "id" else (val[0], from_sx(val[1]))
         sound = v[3] == "1" if len(v) > 3 else None
-        return ("yes", sig, v[1] == "1", sound)
+        hyps = v[4] == "1" if len(v) > 4 else None
+        binds = v[5] == "1" if len(v) > 5 else None
+        return ("yes", sig, v[1] == "1", sound, hyps, binds)
     raise ValueError(resp)
 
 
@@ -252,8 +254,13 @@ def run(tier, seed, replay=None):
             rep.disagreements.append({**case_json, "impl": _show(impl), "model": _show(model), "panic_msg": msg})
         if model[0] == "yes":
             rep.count("model-lossy" if model[2] else "model-exact")
-            if not model[2] and model[3] is False:
-                rep.broken.append(f"C09_sound instance false in the executable model for {kind} {a} / {b}")
+            if model[4] is False:
+                rep.count("theorem-hypotheses-fail")
+                rep.broken.append(f"decoded trees violate the well-formedness hypotheses (wf/ignFaces/noConstParam) of the C09 theorems: {kind} {a} / {b}")
+            elif not model[2] and (model[3] is False or model[5] is False):
+                rep.broken.append(f"instance of C09_sound_wf / C09_binds_all_wf false in the executable model for {kind} {a} / {b}")
+            else:
+                rep.count("theorem-instances-checked")
         # --- oracle on the implementation's own answer
         ea, eb = tref.erase(ta), tref.erase(tb)
         info = {}
